@@ -1,6 +1,7 @@
 package main
 
 import (
+	"fmt"
 	"go/token"
 	"go/types"
 	"strings"
@@ -39,6 +40,8 @@ type c10env struct {
 	peeks     []*ssa.Call
 	rootCalls []*ssa.Call // calls of parser roots from handler functions with hostile bytes
 
+	fstores map[string][]*ssa.Store // stores into struct fields, by struct type and field (derivesMem)
+
 	sizeFn     *ssa.Function
 	sizeCalls  []*ssa.Call
 	parseCalls []*ssa.Call // root calls other than the size function's
@@ -59,6 +62,28 @@ func c10isBytesOrString(t types.Type) bool {
 	}
 	b, ok := t.Underlying().(*types.Basic)
 	return ok && b.Info()&types.IsString != 0
+}
+
+// c10carriesBytes: a byte slice, a string, an array of bytes, or a struct / pointer to a struct or array (of the
+// package) that holds one: the forms in which client bytes are handed to a parser (as an argument or in its receiver).
+func c10carriesBytes(t types.Type, depth int) bool {
+	if depth > 3 {
+		return false
+	}
+	if c10isBytesOrString(t) || c10byteLike(t) {
+		return true
+	}
+	switch u := t.Underlying().(type) {
+	case *types.Pointer:
+		return c10carriesBytes(u.Elem(), depth+1)
+	case *types.Struct:
+		for i := 0; i < u.NumFields(); i++ {
+			if c10carriesBytes(u.Field(i).Type(), depth+1) {
+				return true
+			}
+		}
+	}
+	return false
 }
 
 // c10pureType: plain data - numbers, strings, slices/arrays of plain data, structs of plain data and pointers to such
@@ -87,8 +112,12 @@ func c10pureType(t types.Type, pkg *types.Package, depth int) bool {
 		if !ok || n.Obj().Pkg() != pkg {
 			return false
 		}
-		_, isStruct := n.Underlying().(*types.Struct)
-		return isStruct && c10pureType(n, pkg, depth+1)
+		switch n.Underlying().(type) {
+		case *types.Struct, *types.Array, *types.Slice:
+			// *clientHelloMsg, *helloPrefix ([9]byte), *helloCursor ([]byte): data of the package itself
+			return c10pureType(n, pkg, depth+1)
+		}
+		return false
 	}
 	return false
 }
@@ -103,11 +132,31 @@ func c10pureSig(f *ssa.Function) bool {
 		if !c10pureType(p.Type(), f.Pkg.Pkg, 0) {
 			return false
 		}
-		if c10isBytesOrString(p.Type()) {
+		if c10carriesBytes(p.Type(), 0) {
 			hasBytes = true
 		}
 	}
 	return hasBytes
+}
+
+// c10isRouteLookup: the call asks the routing table for the target of a host name: the Lookup callback of the proxy
+// (a func-typed field), or - when the callback has been replaced by an interface or is held in a local variable - any
+// dynamic call (func value or interface method) of type func(string) *route.Target.
+func c10isRouteLookup(call *ssa.Call) bool {
+	if isLookupFieldCall(call) {
+		return true
+	}
+	if call.Call.StaticCallee() != nil {
+		return false
+	}
+	sig := call.Call.Signature()
+	if sig == nil || sig.Params().Len() != 1 || sig.Results().Len() != 1 || sig.Variadic() {
+		return false
+	}
+	if b, ok := sig.Params().At(0).Type().Underlying().(*types.Basic); !ok || b.Info()&types.IsString == 0 {
+		return false
+	}
+	return namedIs(sig.Results().At(0).Type(), "route.Target")
 }
 
 var c10consuming = map[string]bool{
@@ -178,6 +227,17 @@ func c10origin(v ssa.Value) ssa.Value {
 			v = bound
 		case *ssa.ChangeType:
 			v = x.X
+		case *ssa.UnOp:
+			// a value parked in a local variable or a field of a local object and read back in the same function: the
+			// load observes exactly the stored value when nothing in between may write the location (c10_mem.go)
+			if x.Op != token.MUL || c10proverForRoles == nil {
+				return v
+			}
+			cv := c10proverForRoles.canon(x, c10proverForRoles.at(x.Block(), 0))
+			if cv == v {
+				return v
+			}
+			v = cv
 		case *ssa.Phi:
 			var o ssa.Value
 			for _, e := range x.Edges {
@@ -213,6 +273,64 @@ func c10resOf(v ssa.Value) (c10res, bool) {
 	case *ssa.Call:
 		if x.Call.Signature().Results().Len() == 1 {
 			return c10res{x, 0}, true
+		}
+	}
+	return c10res{}, false
+}
+
+// c10maySucceed: the return r may report success in its flag result k (an error that is not certainly non-nil, a bool
+// that is not the constant false).
+func c10maySucceed(r *ssa.Return, k int) bool {
+	if k >= len(r.Results) {
+		return false
+	}
+	v := r.Results[k]
+	if c10isBool(v.Type()) {
+		b, isK := constBool(v)
+		return !isK || b
+	}
+	return !c10certainlyNonNil(v, r.Block())
+}
+
+// successKnown: at block b the flag result k of call (seen through forwarding handler functions) is known to report
+// success: the error is nil, the bool is true.
+func (e *c10env) successKnown(b *ssa.BasicBlock, call *ssa.Call, k int) bool {
+	is := func(v ssa.Value) bool {
+		r, ok := e.resOf(v)
+		return ok && r.call == call && r.idx == k
+	}
+	res := call.Call.Signature().Results()
+	if k >= res.Len() {
+		return false
+	}
+	if c10isBool(res.At(k).Type()) {
+		for _, f := range factsAt(b) {
+			if f.Truth && is(f.Cond) {
+				return true
+			}
+		}
+		return false
+	}
+	return knownNil(b, is)
+}
+
+// structResult: v is a field of a struct that a call returned by value - read directly (Field) or from the local the
+// result was stored in once and that is only read afterwards. Returns that result.
+func (e *c10env) structResult(v ssa.Value) (c10res, bool) {
+	switch x := v.(type) {
+	case *ssa.Field:
+		return e.resOf(x.X)
+	case *ssa.UnOp:
+		fa, ok := x.X.(*ssa.FieldAddr)
+		if !ok || x.Op != token.MUL {
+			break
+		}
+		if a, ok := fa.X.(*ssa.Alloc); ok {
+			if st := c10onlyStore(a); st != nil && c10readOnly(a, st, nil, 0) {
+				if _, isStruct := st.Val.Type().Underlying().(*types.Struct); isStruct {
+					return e.resOf(st.Val)
+				}
+			}
 		}
 	}
 	return c10res{}, false
@@ -347,7 +465,7 @@ func c10resolve(c *Ctx, h *ssa.Function) *c10env {
 		if !ok {
 			return
 		}
-		if isLookupFieldCall(call) {
+		if c10isRouteLookup(call) {
 			e.lookups = append(e.lookups, call)
 		}
 		if c10isConsumingRead(call) {
@@ -372,7 +490,7 @@ func c10resolve(c *Ctx, h *ssa.Function) *c10env {
 			if !c10isByteSlice(a.Type()) {
 				continue
 			}
-			derives(a, func(v ssa.Value) bool {
+			e.derivesMem(a, func(v ssa.Value) bool {
 				if mk, ok := v.(*ssa.MakeSlice); ok && c10isByteSlice(mk.Type()) && !isBuf[mk] {
 					isBuf[mk] = true
 					e.buffers = append(e.buffers, mk)
@@ -404,7 +522,7 @@ func c10resolve(c *Ctx, h *ssa.Function) *c10env {
 		}
 		hostile := false
 		for _, a := range call.Call.Args {
-			if c10isBytesOrString(a.Type()) && e.hostile(a) {
+			if c10carriesBytes(a.Type(), 0) && e.hostile(a) {
 				hostile = true
 			}
 		}
@@ -430,7 +548,7 @@ func c10resolve(c *Ctx, h *ssa.Function) *c10env {
 	// the size function: its first result is the length of a capture buffer; failing that, the (int, error) root
 	sizeSig := func(g *ssa.Function) bool {
 		r := g.Signature.Results()
-		return r.Len() == 2 && isIntType(r.At(0).Type()) && typeStr(r.At(1).Type()) == "error"
+		return r.Len() == 2 && isIntType(r.At(0).Type()) && (typeStr(r.At(1).Type()) == "error" || c10isBool(r.At(1).Type()))
 	}
 	for _, mk := range e.buffers {
 		if r, ok := e.resOf(mk.Len); ok && r.idx == 0 {
@@ -460,9 +578,65 @@ func c10resolve(c *Ctx, h *ssa.Function) *c10env {
 	return e
 }
 
+// derivesMem is derives (shared) extended through object fields: a load of field F of a struct type may observe
+// whatever is stored into field F of that struct type anywhere in the repository (field-sensitive, object-insensitive:
+// an over-approximation, used only to decide what MAY carry hostile bytes, i.e. what becomes an obligation). This is
+// what keeps the roles when the captured bytes live in a field of a connection object between capture and parsing.
+func (e *c10env) derivesMem(v ssa.Value, pred func(ssa.Value) bool) bool {
+	if e.fstores == nil {
+		e.fstores = map[string][]*ssa.Store{}
+		for _, f := range c10allFns {
+			eachInstr(f, func(i ssa.Instruction) {
+				st, ok := i.(*ssa.Store)
+				if !ok {
+					return
+				}
+				if fa, ok := st.Addr.(*ssa.FieldAddr); ok {
+					if k := c10fieldKey(fa); k != "" {
+						e.fstores[k] = append(e.fstores[k], st)
+					}
+				}
+			})
+		}
+	}
+	seen := map[ssa.Value]bool{}
+	var rec func(v ssa.Value, depth int) bool
+	rec = func(v ssa.Value, depth int) bool {
+		return derives(v, func(x ssa.Value) bool {
+			if pred(x) {
+				return true
+			}
+			u, ok := x.(*ssa.UnOp)
+			if !ok || u.Op != token.MUL || seen[u] || depth > 3 {
+				return false
+			}
+			fa, ok := u.X.(*ssa.FieldAddr)
+			if !ok {
+				return false
+			}
+			seen[u] = true
+			for _, st := range e.fstores[c10fieldKey(fa)] {
+				if rec(st.Val, depth+1) {
+					return true
+				}
+			}
+			return false
+		})
+	}
+	return rec(v, 0)
+}
+
+func c10fieldKey(fa *ssa.FieldAddr) string {
+	st := c10deref(fa.X.Type())
+	if st == nil {
+		return ""
+	}
+	return fmt.Sprintf("%s#%d", typeStr(st.Underlying()), fa.Field)
+}
+
 // hostile: v carries bytes read from the client before routing (a capture buffer, a peek, or something cut from them).
 func (e *c10env) hostile(v ssa.Value) bool {
-	return derives(v, func(x ssa.Value) bool {
+	return e.derivesMem(v, func(x ssa.Value) bool {
 		if mk, ok := x.(*ssa.MakeSlice); ok {
 			for _, b := range e.buffers {
 				if b == mk {
@@ -517,6 +691,27 @@ func c10sliceBase(v ssa.Value, b *c10bind, depth int) (ssa.Value, int64, bool) {
 		return r, o + lo, ok
 	case *ssa.ChangeType:
 		return c10sliceBase(x.X, b, depth+1)
+	case *ssa.SliceToArrayPointer:
+		// (*[N]byte)(s) points at s[0]
+		return c10sliceBase(x.X, b, depth+1)
+	case *ssa.UnOp:
+		// an array VALUE loaded from where it lives: the same bytes, copied
+		if _, isArr := x.Type().Underlying().(*types.Array); isArr && x.Op == token.MUL {
+			return c10sliceBase(x.X, b, depth+1)
+		}
+		return v, 0, true
+	case *ssa.Alloc:
+		// a local array that is initialised once with a copy of bytes and only read afterwards
+		if _, isArr := x.Type().Underlying().(*types.Pointer).Elem().Underlying().(*types.Array); isArr {
+			if st := c10onlyStore(x); st != nil && c10readOnly(x, st, nil, 0) {
+				return c10sliceBase(st.Val, b, depth+1)
+			}
+			// var a [N]byte; copy(a[:], src) with len(src) >= N proved at the copy
+			if sl, src := c10onlyCopyInto(x); sl != nil && c10readOnly(x, nil, sl, 0) {
+				return c10sliceBase(src, b, depth+1)
+			}
+		}
+		return v, 0, true
 	case *ssa.Parameter:
 		if b != nil && b.call.Call.StaticCallee() == x.Parent() {
 			for k, p := range x.Parent().Params {
@@ -529,6 +724,134 @@ func c10sliceBase(v ssa.Value, b *c10bind, depth int) (ssa.Value, int64, bool) {
 		return v, 0, true
 	}
 	return v, 0, true
+}
+
+// c10onlyStore: the single store that writes the whole of the local a.
+func c10onlyStore(a *ssa.Alloc) *ssa.Store {
+	var out *ssa.Store
+	if a.Referrers() == nil {
+		return nil
+	}
+	for _, r := range *a.Referrers() {
+		if st, ok := r.(*ssa.Store); ok && st.Addr == ssa.Value(a) {
+			if out != nil {
+				return nil
+			}
+			out = st
+		}
+	}
+	return out
+}
+
+// c10proverForRoles: the prover of the current run (set in runC10); byte provenance needs one length proof (copy).
+var c10proverForRoles *c10prover
+
+// c10onlyCopyInto: the local array a is filled by exactly one copy(a[:], src) whose source is proved to hold at least
+// len(a) bytes there; returns the a[:] instruction and src.
+func c10onlyCopyInto(a *ssa.Alloc) (*ssa.Slice, ssa.Value) {
+	arr, ok := c10deref(a.Type()).Underlying().(*types.Array)
+	if !ok || a.Referrers() == nil || c10proverForRoles == nil {
+		return nil, nil
+	}
+	var out *ssa.Slice
+	var src ssa.Value
+	for _, r := range *a.Referrers() {
+		sl, ok := r.(*ssa.Slice)
+		if !ok {
+			continue
+		}
+		if out != nil || sl.X != ssa.Value(a) || sl.High != nil || sl.Max != nil || sl.Referrers() == nil || len(*sl.Referrers()) != 1 {
+			return nil, nil
+		}
+		if sl.Low != nil {
+			if k, isK := constInt(sl.Low); !isK || k != 0 {
+				return nil, nil
+			}
+		}
+		call, ok := (*sl.Referrers())[0].(*ssa.Call)
+		if !ok || calleeName(&call.Call) != "builtin.copy" || len(call.Call.Args) != 2 || call.Call.Args[0] != ssa.Value(sl) {
+			return nil, nil
+		}
+		if !c10proverForRoles.at(call.Block(), 0).proveLE(c10k(arr.Len()), c10len(call.Call.Args[1]), 0) {
+			return nil, nil
+		}
+		out, src = sl, call.Call.Args[1]
+	}
+	return out, src
+}
+
+// c10readOnly: apart from the store init (or the slice fill handed to the one copy that fills it), the memory the
+// pointer p points to is only read: loads, element loads, and calls of repository functions that only read through
+// the corresponding parameter.
+func c10readOnly(p ssa.Value, init *ssa.Store, fill *ssa.Slice, depth int) bool {
+	refs := p.Referrers()
+	if refs == nil || depth > 4 {
+		return false
+	}
+	// the initialisation comes first: every other use is dominated by it (a read before it would see zeroes)
+	var first ssa.Instruction
+	if init != nil {
+		first = init
+	} else if fill != nil && fill.Referrers() != nil && len(*fill.Referrers()) == 1 {
+		first = (*fill.Referrers())[0]
+	}
+	for _, r := range *refs {
+		if first != nil && r != ssa.Instruction(init) && r != ssa.Instruction(fill) {
+			if _, isDbg := r.(*ssa.DebugRef); !isDbg && !dominatesInstr(first, r) {
+				return false
+			}
+		}
+		switch x := r.(type) {
+		case *ssa.Store:
+			if x != init {
+				return false // written again, or the pointer itself is stored somewhere
+			}
+		case *ssa.UnOp:
+			if x.Op != token.MUL {
+				return false
+			}
+		case *ssa.DebugRef:
+		case *ssa.Slice:
+			if x != fill {
+				return false
+			}
+		case *ssa.FieldAddr:
+			if x.X != p {
+				return false
+			}
+			for _, r2 := range *x.Referrers() {
+				if u, ok := r2.(*ssa.UnOp); !ok || u.Op != token.MUL {
+					if _, isDbg := r2.(*ssa.DebugRef); !isDbg {
+						return false
+					}
+				}
+			}
+		case *ssa.IndexAddr:
+			if x.X != p {
+				return false
+			}
+			for _, r2 := range *x.Referrers() {
+				if u, ok := r2.(*ssa.UnOp); !ok || u.Op != token.MUL {
+					if _, isDbg := r2.(*ssa.DebugRef); !isDbg {
+						return false
+					}
+				}
+			}
+		case *ssa.Call:
+			g := x.Call.StaticCallee()
+			if g == nil || x.Call.IsInvoke() || !isRepoFn(g) || len(g.Blocks) == 0 {
+				return false
+			}
+			for k, a := range x.Call.Args {
+				if a == p && (k >= len(g.Params) || !c10readOnly(g.Params[k], nil, nil, depth+1)) {
+					return false
+				}
+			}
+		default:
+			return false
+		}
+	}
+	return true
 }
 
 // c10intBits: the width of an integer type (64 for int, uint, uintptr: the platforms fabio is built for).
@@ -660,6 +983,17 @@ func c10parts(v ssa.Value, b *c10bind, depth int) ([]c10shifted, bool) {
 			return nil, false
 		}
 		r, o, ok := c10sliceBase(ia.X, b, depth+1)
+		if !ok {
+			return nil, false
+		}
+		return []c10shifted{{c10ref{r, o + k, 1}, 0}}, true
+	case *ssa.Index:
+		// element of an array value
+		k, ok := constInt(x.Index)
+		if !ok {
+			return nil, false
+		}
+		r, o, ok := c10sliceBase(x.X, b, depth+1)
 		if !ok {
 			return nil, false
 		}
